@@ -10,10 +10,18 @@
     is the pinned order (released at the probe result itself), kept for the
     refutation witness of props/C01.v.
 
-    Out of scope: the [restart] op of the harness (a restored router shows
-    balancers through KLbNew + KStateSet adding->healthy + KRotation and
-    services without deploy/install events): such traces are rejected at the
-    first KRouted to a restored service object. *)
+    Restarts ([Router.RestoreLastSavedState], the [restart] op of the harness):
+    the decoding goroutine (an actor that is not a command) creates the balancers
+    of every saved service (KLbNew), marks every target healthy without a probe
+    (KStateSet adding->healthy: ghost flag [t_presumed]) and rebuilds the
+    rotation (KRotation with all the targets); [KRestored sv act roll] then puts
+    the service object [sv] into the routing table (ServiceMap.Set: [install])
+    with [act] in its active and [roll] in its rollout slot.  The rule accepts
+    the event only for balancers that were created by a non-command actor
+    ([b_cmd = false]), never waited on, not disposed, not restored before, whose
+    targets are all presumed healthy and whose rotation is all their targets;
+    it sets the ghost flag [b_restored].  A balancer in a slot is therefore one
+    whose deploy wait succeeded OR one that was restored. *)
 From KP Require Import model.Base model.Trace.
 Local Open Scope nat_scope.
 
@@ -37,7 +45,9 @@ Record bal := mkBal {
   b_idx : nat;                    (* LoadBalancer.index *)
   b_waited : option bool;         (* result of LoadBalancer.WaitUntilHealthy *)
   b_disp : bool;
-  b_deadline : option N           (* creation time + deploy timeout, when created by a command *)
+  b_deadline : option N;          (* creation time + deploy timeout, when created by a command *)
+  b_cmd : bool;                   (* ghost: created by a command (a deploy) *)
+  b_restored : bool               (* ghost: put into service by a KRestored event *)
 }.
 
 Record svc := mkSvc { s_act : option nat; s_roll : option nat }.
@@ -89,10 +99,11 @@ Definition tg_waiter (x : tgt) v := mkTgt (t_lb x) (t_st x) (t_pok x) (t_presume
 Definition tg_probing (x : tgt) v := mkTgt (t_lb x) (t_st x) (t_pok x) (t_presumed x) (t_by x) (t_sig x) (t_waiter x) v (t_infl x).
 Definition tg_infl (x : tgt) v := mkTgt (t_lb x) (t_st x) (t_pok x) (t_presumed x) (t_by x) (t_sig x) (t_waiter x) (t_probing x) v.
 
-Definition bl_rot (x : bal) v := mkBal (b_ts x) v (b_idx x) (b_waited x) (b_disp x) (b_deadline x).
-Definition bl_idx (x : bal) v := mkBal (b_ts x) (b_rot x) v (b_waited x) (b_disp x) (b_deadline x).
-Definition bl_waited (x : bal) v := mkBal (b_ts x) (b_rot x) (b_idx x) v (b_disp x) (b_deadline x).
-Definition bl_disp (x : bal) v := mkBal (b_ts x) (b_rot x) (b_idx x) (b_waited x) v (b_deadline x).
+Definition bl_rot (x : bal) v := mkBal (b_ts x) v (b_idx x) (b_waited x) (b_disp x) (b_deadline x) (b_cmd x) (b_restored x).
+Definition bl_idx (x : bal) v := mkBal (b_ts x) (b_rot x) v (b_waited x) (b_disp x) (b_deadline x) (b_cmd x) (b_restored x).
+Definition bl_waited (x : bal) v := mkBal (b_ts x) (b_rot x) (b_idx x) v (b_disp x) (b_deadline x) (b_cmd x) (b_restored x).
+Definition bl_restored (x : bal) v := mkBal (b_ts x) (b_rot x) (b_idx x) (b_waited x) (b_disp x) (b_deadline x) (b_cmd x) v.
+Definition bl_disp (x : bal) v := mkBal (b_ts x) (b_rot x) (b_idx x) (b_waited x) v (b_deadline x) (b_cmd x) (b_restored x).
 
 (** ** Helpers *)
 
@@ -170,6 +181,25 @@ Definition phase_proceeding (p : option cphase) : bool :=
 
 Definition err_unhealthy : N := 2%N.
 
+(** restore: the balancers a KRestored event may name, and their marking *)
+Definition opt_list (o : option nat) : list nat := match o with Some x => [x] | None => [] end.
+
+Definition is_presumed (tg : list (nat * tgt)) (t : nat) : bool :=
+  match nget tg t with Some x => t_presumed x | None => false end.
+
+Definition restorable (s : state) (lb : nat) : bool :=
+  match nget (bals s) lb with
+  | Some b =>
+    negb (b_cmd b) && negb (b_restored b) && negb (b_disp b)
+    && match b_waited b with None => true | Some _ => false end
+    && forallb (is_presumed (tgts s)) (b_ts b)
+    && nlist_eqb (b_rot b) (b_ts b)
+  | None => false
+  end.
+
+Definition mark_restored (lbs : list nat) (bl : list (nat * bal)) : list (nat * bal) :=
+  map (fun lb_b => (fst lb_b, if nmem (fst lb_b) lbs then bl_restored (snd lb_b) true else snd lb_b)) bl.
+
 (** ** The acceptor.  [pinned = false]: the repaired signal order. *)
 
 Definition step_gen (pinned : bool) (s : state) (e : event) : option state :=
@@ -200,14 +230,14 @@ Definition step_gen (pinned : bool) (s : state) (e : event) : option state :=
   (* ---- balancer creation, probes, rotation, waiters ---- *)
   | KLbNew lb ts =>
     if fresh (bals s) lb && forallb (fresh (tgts s)) ts && nodupb ts then
-      let mk dl := set_bals (set_tgts s (add_targets (tgts s) lb ts)) (nset (bals s) lb (mkBal ts [] 0 None false dl)) in
+      let mk dl cm := set_bals (set_tgts s (add_targets (tgts s) lb ts)) (nset (bals s) lb (mkBal ts [] 0 None false dl cm false)) in
       match a with
       | ACmd c =>
         if fresh (cmds s) c then
           let dl := match nget (ctimeout s) c with Some dt => Some (e_t e + dt)%N | None => None end in
-          Some (set_cmds (mk dl) (nset (cmds s) c (CWaiting lb)))
+          Some (set_cmds (mk dl true) (nset (cmds s) c (CWaiting lb)))
         else None
-      | _ => Some (mk None)
+      | _ => Some (mk None false)
       end
     else None
   | KProbeApply t ok prev new =>
@@ -324,6 +354,18 @@ Definition step_gen (pinned : bool) (s : state) (e : event) : option state :=
     | Some c =>
       if fresh (cmds s) c && nmem sv (inst s) then Some (set_inst s (nremove sv (inst s))) else None
     | None => None
+    end
+  (* ---- restart ---- *)
+  | KRestored sv act roll =>
+    (* RestoreLastSavedState, under the router's write lock: services.Set(service) *)
+    match cmd_of a, act, nget (svcs s) sv, nget (snames s) sv with
+    | None, Some lb, Some (mkSvc None None), Some _ =>
+      if negb (nmem sv (inst s)) && forallb (restorable s) (lb :: opt_list roll) then
+        Some (set_inst (set_svcs (set_bals s (mark_restored (lb :: opt_list roll) (bals s)))
+                                 (nset (svcs s) sv (mkSvc (Some lb) roll)))
+                       (install (snames s) (inst s) sv))
+      else None
+    | _, _, _, _ => None
     end
   (* ---- requests ---- *)
   | KRouted r (Some sv) =>
